@@ -647,4 +647,44 @@ theorem strict_runFrom : ∀ (cs : List Cmd) (s : Stack), s ≠ [] → cs.any is
     | check => simp [AssertStack.step, assertsOfCmds]
     | other => simp [AssertStack.step, assertsOfCmds]
 
+/-! ### exactness: an illegal script is never silently accepted -/
+
+theorem sinv_backtrack_base {l : List Item} {st : St} (h : SInv [l] st) : st.backtrack = [] := by
+  rw [h.backtrack]; rfl
+
+theorem popN_illegal : ∀ (n : Nat) {s : Stack} {st : St}, SInv s st → ¬ n < s.length →
+    popN n st = .error .indexError
+  | 0, s, _, h, hn => by
+    have := h.nonempty
+    cases s with
+    | nil => exact absurd rfl this
+    | cons _ _ => simp at hn
+  | n + 1, [], _, h, _ => absurd rfl h.nonempty
+  | n + 1, [l], st, h, _ => by
+    simp [popN, popOnce, sinv_backtrack_base h]
+  | n + 1, l :: l' :: ls, st, h, hn => by
+    obtain ⟨st1, h1, i1⟩ := sinv_pop h
+    have := popN_illegal n i1 (by simp at hn ⊢; omega)
+    simp [popN, h1, this]
+
+theorem sinv_runFrom_illegal : ∀ (cs : List Cmd) (s : Stack) (st : St), SInv s st →
+    AssertStack.runFrom s cs = none → Script.runFrom st cs = .error .indexError
+  | [], s, st, _, hr => by simp [AssertStack.runFrom] at hr
+  | c :: cs, s, st, h, hr => by
+    simp only [AssertStack.runFrom] at hr
+    by_cases hl : legal s c = true
+    · simp only [hl, if_true] at hr
+      obtain ⟨st1, h1, i1⟩ := sinv_step h c hl
+      simp [Script.runFrom, h1, sinv_runFrom_illegal cs _ st1 i1 hr]
+    · cases c with
+      | pop n =>
+        simp only [legal, decide_eq_true_eq] at hl
+        simp [Script.runFrom, Script.step, popN_illegal n h hl]
+      | _ => simp [legal] at hl
+
+/-- on a script that is illegal in SMT-LIB the replay loop raises `IndexError` (and nothing else) -/
+theorem lastFormula_illegal (cs : List Cmd) (h : AssertStack.run cs = none) :
+    lastFormula cs = .error .indexError := by
+  simp [lastFormula, sinv_runFrom_illegal cs init St.init (sinv_init _ _) h]
+
 end PySMT.Proofs.C16
